@@ -219,6 +219,10 @@ pub struct Ctx {
     pub replay_hit: bool,
     /// child-process mode: run only this (section, shard index, cases) and print the result
     pub shard: Option<(String, u32, u32)>,
+    /// per-case wall-clock limit (properties about termination); None = no watchdog
+    pub case_timeout_s: Option<f64>,
+    pub replay_path: Option<String>,
+    pub unconfirmed_timeouts: u32,
     start: Instant,
 }
 
@@ -239,6 +243,35 @@ pub fn in_pool<R: Send>(f: impl FnOnce() -> R + Send) -> R {
     let mut out = None;
     rayon::scope(|s| s.spawn(|_| out = Some(f())));
     out.expect("pool task did not run")
+}
+
+/// per-case watchdog (only for properties that set a case timeout): the case being executed
+static CASE_WATCH: std::sync::Mutex<Option<(Instant, String)>> = std::sync::Mutex::new(None);
+static WATCH_ON: std::sync::atomic::AtomicBool = std::sync::atomic::AtomicBool::new(false);
+
+/// Starts the monitor thread of this process: if one case runs longer than `limit_s` the process
+/// prints `SHARD-HANG <case json>` and exits with status 3 (a hang cannot be caught in-process).
+fn arm_watchdog(limit_s: f64, replay_of: Option<(String, String)>) {
+    if WATCH_ON.swap(true, std::sync::atomic::Ordering::SeqCst) {
+        return;
+    }
+    std::thread::spawn(move || loop {
+        std::thread::sleep(std::time::Duration::from_millis(200));
+        let g = CASE_WATCH.lock().unwrap();
+        if let Some((t0, js)) = g.as_ref() {
+            if t0.elapsed().as_secs_f64() > limit_s {
+                println!("SHARD-HANG {js}");
+                if let Some((id, path)) = &replay_of {
+                    if std::env::var("VERIF_HANG_CONFIRM").is_err() {
+                        println!("FAIL property={id} sig=[hang] the call did not return within {limit_s:.0} s");
+                        println!("VIOLATION property={id} replay={path}");
+                        std::process::exit(1);
+                    }
+                }
+                std::process::exit(3);
+            }
+        }
+    });
 }
 
 thread_local! {
@@ -306,7 +339,24 @@ impl Ctx {
             replay: None,
             replay_hit: false,
             shard: None,
+            case_timeout_s: None,
+            replay_path: None,
+            unconfirmed_timeouts: 0,
             start: Instant::now(),
+        }
+    }
+
+    /// Cases of the following sections are supervised: a case that does not return within
+    /// `limit_s` is re-run alone with twice the limit; if it hangs again that is a violation
+    /// (signature `hang`), a single unconfirmed timeout makes the run exit with status 2.
+    pub fn set_case_timeout(&mut self, limit_s: f64) {
+        self.case_timeout_s = Some(limit_s);
+        let scale: f64 = std::env::var("VERIF_TIMEOUT_SCALE").ok().and_then(|v| v.parse().ok()).unwrap_or(1.0);
+        if self.shard.is_some() {
+            arm_watchdog(limit_s * scale, None);
+        } else if self.replay.is_some() {
+            let scale = if std::env::var("VERIF_HANG_CONFIRM").is_ok() { scale } else { 2.0 };
+            arm_watchdog(limit_s * scale, Some((self.id.clone(), self.replay_path.clone().unwrap_or_default())));
         }
     }
 
@@ -540,6 +590,42 @@ impl Ctx {
                 let out = c.wait_with_output().expect("wait for shard");
                 let txt = String::from_utf8_lossy(&out.stdout);
                 let line = txt.lines().find(|l| l.starts_with("SHARD-RESULT "));
+                let hang = txt.lines().find(|l| l.starts_with("SHARD-HANG "));
+                if let (None, Some(h)) = (line, hang) {
+                    // a case did not return in time: confirm it alone with twice the limit
+                    let case_v: Value = serde_json::from_str(&h["SHARD-HANG ".len()..]).unwrap_or(Value::Null);
+                    let f = Fail::new("hang", format!("the call did not return within the time limit ({} s; confirmed alone with twice the limit)", self.case_timeout_s.unwrap_or(0.0)));
+                    let tmp = self.verif_dir.join("replays");
+                    let _ = std::fs::create_dir_all(&tmp);
+                    let cand = tmp.join(format!("{}-{}-hang-candidate-{}.json", self.id, name, sh));
+                    let rf = ReplayFile {
+                        property: self.id.clone(),
+                        section: name.to_string(),
+                        case: case_v.clone(),
+                        message: f.msg.clone(),
+                        signature: f.sig.clone(),
+                        seed: self.seed,
+                    };
+                    let _ = std::fs::write(&cand, serde_json::to_string_pretty(&rf).unwrap());
+                    let st = std::process::Command::new(&exe)
+                        .arg(&self.id)
+                        .arg("--replay")
+                        .arg(&cand)
+                        .env("VERIF_HANG_CONFIRM", "1")
+                        .env("VERIF_TIMEOUT_SCALE", "2")
+                        .env("VERIF_DIR", &self.verif_dir)
+                        .env("RAYON_NUM_THREADS", "1")
+                        .stdout(std::process::Stdio::null())
+                        .status();
+                    let _ = std::fs::remove_file(&cand);
+                    if matches!(st.map(|s| s.code()), Ok(Some(3))) {
+                        results.push((Cov::new(), Some((case_v, f)), vec![]));
+                    } else {
+                        eprintln!("INFRASTRUCTURE: a case of section {name} exceeded its time limit once but not when re-run alone (unconfirmed timeout)");
+                        self.unconfirmed_timeouts += 1;
+                    }
+                    continue;
+                }
                 match line.and_then(|l| serde_json::from_str::<ShardResult>(&l["SHARD-RESULT ".len()..]).ok()) {
                     Some(r) => results.push((r.cov, r.fail, r.known_seen)),
                     None => {
@@ -663,15 +749,33 @@ impl Ctx {
             self.violations.len(),
             self.start.elapsed().as_secs_f64()
         );
-        if self.violations.is_empty() {
-            0
-        } else {
+        if !self.violations.is_empty() {
             1
+        } else if self.unconfirmed_timeouts > 0 {
+            2
+        } else {
+            0
         }
     }
 }
 
 fn run_checked<C, F>(check: &F, case: &C, cov: &mut Cov) -> CheckResult
+where
+    C: Serialize,
+    F: Fn(&C, &mut Cov) -> CheckResult,
+{
+    let watched = WATCH_ON.load(std::sync::atomic::Ordering::Relaxed);
+    if watched {
+        *CASE_WATCH.lock().unwrap() = Some((Instant::now(), serde_json::to_string(case).unwrap_or_default()));
+    }
+    let r = run_checked_inner(check, case, cov);
+    if watched {
+        *CASE_WATCH.lock().unwrap() = None;
+    }
+    r
+}
+
+fn run_checked_inner<C, F>(check: &F, case: &C, cov: &mut Cov) -> CheckResult
 where
     F: Fn(&C, &mut Cov) -> CheckResult,
 {
